@@ -48,6 +48,13 @@ Definition sec_observe (stream : list Z) (le is64 : bool) (s : section) (o : sob
 Definition sec_session (stream : list Z) (le is64 : bool) (h : sheader) (obs : list sobs) : res (list sans) :=
   do s <- section_init stream le is64 h;
   Ok (map (sec_observe stream le is64 s) obs).
+
+(* the same for section number n of the file, reached by any entry point: the header is read at
+   e_shoff + n * e_shentsize *)
+Definition sec_session_at (stream : list Z) (le is64 : bool) (T : list (Z * string))
+           (shoff shentsize n : Z) (obs : list sobs) : res (list sans) :=
+  do h <- section_header_at stream le is64 T shoff shentsize n;
+  sec_session stream le is64 h obs.
 End zlib.
 
 (* ================================================================== one ELFFile object *)
